@@ -205,7 +205,7 @@ def exec_history(case: Dict[str, Any]) -> Dict[str, Any]:
                     full = os.path.join(os.path.realpath(root), rel)
                     os.makedirs(os.path.dirname(full), exist_ok=True)
                     pq.write_table(pa.table({"x": pa.array([next(counter), next(counter)], pa.int64())}), full)
-                    if op.get("place", "").startswith("@tp"):
+                    if op.get("place", "").startswith("@tp") and rel != f"data/{name}":     # (an override that is the bucket root makes @tp/data plain data/: nothing to plant beside the file itself)
                         _plant(root, f"data/{name}", b"PAR1 an orphan whose key an alias entry normalises to")
                     fmt = FileFormat.PARQUET if op.get("fmt", "parquet") == "parquet" else [f for f in FileFormat if f != FileFormat.PARQUET][0]
                     tx = t.new_transaction().begin()
